@@ -35,7 +35,8 @@ Inductive site :=
   (* storage *)
   | StorageCount           (* storage/coordinator.go:87-98     "Only one storage module must be configured" *)
   | StorageClass           (* storage/coordinator.go:72-73     "Unknown storage className provided" *)
-  | StorageQueueDepth      (* storage/inmemory.go:131-133      make(chan, queue-depth) with a negative size: runtime error *)
+  | StorageWorkers         (* storage/inmemory.go:133-136      "must be configured with at least one worker" (fix: 746d605) *)
+  | StorageQueueDepth      (* storage/inmemory.go:138          make(chan, queue-depth) with a negative size: runtime error *)
   | StorageLegacy          (* storage/inmemory.go:139-142      group-whitelist / group-blacklist *)
   | StorageAllow           (* storage/inmemory.go:144-152      group-allowlist does not compile *)
   | StorageDeny            (* storage/inmemory.go:154-162      group-denylist does not compile *)
@@ -71,6 +72,8 @@ Inductive site :=
   | ClusterClass           (* cluster/coordinator.go:64-65     "Unknown cluster className provided" *)
   | ClusterNoServers       (* cluster/kafka_cluster.go:68-70   "No Kafka brokers specified for cluster" *)
   | ClusterBadServers      (* cluster/kafka_cluster.go:71-72   "improperly formatted servers" *)
+  | ClusterRefresh         (* cluster/kafka_cluster.go:83-86   offset-refresh / topic-refresh below 1 second (fix: 4350030) *)
+  | ClusterReaperRefresh   (* cluster/kafka_cluster.go:87-89   negative groups-reaper-refresh (fix: 4350030) *)
   (* consumer *)
   | ConsumerCluster        (* consumer/coordinator.go:87-89, kafka_client.go:97-100  "references an unknown cluster" *)
   | ConsumerClass          (* consumer/coordinator.go:71-72    "Unknown consumer className provided" *)
@@ -103,6 +106,7 @@ Definition panic_violation (p : panic) : violation :=
 (* ------------------------------------------------------------------------------------------------------------------ *)
 Record storage_mod := {
   st_name : str; st_class : cls;
+  st_workers : Z;                     (* effective value (default 20): Start makes that many channels and goroutines *)
   st_queue_depth : Z;                 (* effective value (default 1) *)
   st_legacy : bool;                   (* group-whitelist or group-blacklist is set *)
   st_allow : str; st_deny : str }.
@@ -124,7 +128,9 @@ Record notifier_mod := {
   nt_server : str; nt_port : Z; nt_from : str; nt_to : str; nt_auth : auth }.   (* email *)
 
 Record cluster_mod := {
-  cl_name : str; cl_class : cls; cl_profile : str; cl_servers : list str }.
+  cl_name : str; cl_class : cls; cl_profile : str; cl_servers : list str;
+  cl_offset_refresh : Z; cl_topic_refresh : Z;     (* effective values in seconds (defaults 10, 60): ticker periods of Start *)
+  cl_reaper_refresh : Z }.                         (* default 0 = no groups reaper *)
 
 Record consumer_mod := {
   cn_name : str; cn_class : cls; cn_cluster : str; cn_profile : str; cn_servers : list str;
@@ -238,11 +244,12 @@ Definition configure_zookeeper (c : config) : option panic :=
 (* storage/inmemory.go:117-163 (class check: storage/coordinator.go:60-75) *)
 Definition configure_storage_mod (c : config) (m : storage_mod) : option panic :=
   guard (match st_class m with ClsInmemory => true | _ => false end) (PanicString StorageClass (st_name m))
+  (guard (1 <=? st_workers m) (PanicString StorageWorkers (st_name m))
   (guard (0 <=? st_queue_depth m) (PanicError StorageQueueDepth (st_name m))
   (guard (negb (st_legacy m)) (PanicZap StorageLegacy (st_name m))
   (guard (pattern_ok c (st_allow m)) (PanicZap StorageAllow (st_name m))
   (guard (pattern_ok c (st_deny m)) (PanicZap StorageDeny (st_name m))
-   None)))).
+   None))))).
 
 (* storage/coordinator.go:81-107: no module = default inmemory module, which configures without failure *)
 Definition configure_storage (o : order) (c : config) : option panic :=
@@ -339,7 +346,9 @@ Definition configure_cluster_mod (c : config) (m : cluster_mod) : option panic :
   | None =>
       guard (nonempty (cl_servers m)) (PanicString ClusterNoServers (cl_name m))
       (guard (servers_ok c (cl_servers m)) (PanicString ClusterBadServers (cl_name m))
-       None)
+      (guard ((1 <=? cl_offset_refresh m) && (1 <=? cl_topic_refresh m)) (PanicString ClusterRefresh (cl_name m))
+      (guard (0 <=? cl_reaper_refresh m) (PanicString ClusterReaperRefresh (cl_name m))
+       None)))
   end.
 
 Definition configure_cluster (o : order) (c : config) : option panic :=
@@ -478,15 +487,40 @@ Definition zookeeper_tls_ok (c : config) : bool :=
 Definition zookeeper_root_ok (c : config) : bool :=
   match cfg_zk_root c with Some p => zkroot_trivial c p | None => false end || reachable c (cfg_zk_servers c).
 
-(* Start of one coordinator: true = it returned nil.  In the model the Kafka clients fail on unreachable brokers
-   (sarama.NewClient), and the zookeeper coordinator on unusable TLS files or when it has to create its root path on an
-   unreachable ensemble; the connection itself is set up asynchronously, and the OS is assumed to grant the listeners. *)
-Definition start_coord (o : order) (c : config) (k : coord) : bool :=
+(* What a coordinator's Start does: returns nil, returns an error, or panics (core.Start has no recover around the start
+   loop, so such a panic leaves it). *)
+Inductive start_outcome := StartOk | StartError | StartPanic (p : panic).
+
+(* storage/inmemory.go:190-196 InMemoryStorage.Start: make([]chan ..., numWorkers) raises a runtime error for a negative
+   count.  (Configure refuses workers < 1 since 746d605, so this is dead for accepted configurations: start_accepted_no_panic.) *)
+Definition start_storage_mod (m : storage_mod) : option panic :=
+  if st_workers m <? 0 then Some (PanicError StorageWorkers (st_name m)) else None.
+
+(* cluster/kafka_cluster.go:91-131 KafkaCluster.Start: sarama.NewClient fails on unreachable brokers (error); once connected,
+   time.NewTicker panics for a non-positive offset-refresh / topic-refresh and for a negative groups-reaper-refresh
+   (0 = reaper off).  helpers.StartCoordinatorModules stops at the first module that does not start. *)
+Definition cluster_tickers_ok (m : cluster_mod) : bool :=
+  (1 <=? cl_offset_refresh m) && (1 <=? cl_topic_refresh m) && (0 <=? cl_reaper_refresh m).
+
+Fixpoint start_clusters (c : config) (l : list cluster_mod) : start_outcome :=
+  match l with
+  | [] => StartOk
+  | m :: r =>
+      if reachable c (cl_servers m)
+      then (if cluster_tickers_ok m then start_clusters c r else StartPanic (PanicString ClusterRefresh (cl_name m)))
+      else StartError
+  end.
+
+(* Start of one coordinator.  In the model the Kafka clients fail on unreachable brokers (sarama.NewClient), and the
+   zookeeper coordinator on unusable TLS files or when it has to create its root path on an unreachable ensemble; the
+   connection itself is set up asynchronously, and the OS is assumed to grant the listeners. *)
+Definition start_coord (o : order) (c : config) (k : coord) : start_outcome :=
   match k with
-  | CZookeeper => zookeeper_tls_ok c && zookeeper_root_ok c
-  | CCluster => forallb (fun m => reachable c (cl_servers m)) (ord_cluster o)
-  | CConsumer => forallb (fun m => reachable c (cn_servers m)) (ord_consumer o)
-  | _ => true
+  | CZookeeper => if zookeeper_tls_ok c && zookeeper_root_ok c then StartOk else StartError
+  | CStorage => match scan start_storage_mod (ord_storage o) with Some p => StartPanic p | None => StartOk end
+  | CCluster => start_clusters c (ord_cluster o)
+  | CConsumer => if forallb (fun m => reachable c (cn_servers m)) (ord_consumer o) then StartOk else StartError
+  | _ => StartOk
   end.
 
 (* Listening sockets ("listeners opened" is what the property observes).  httpserver.Coordinator.Configure only builds
@@ -528,8 +562,11 @@ Definition no_listener : list str := [].
 Fixpoint start_list (o : order) (c : config) (todo started : list coord) : result :=
   match todo with
   | [] => Returned 0 started (still_listening c (coordinators c) started started)
-  | k :: r => if start_coord o c k then start_list o c r (started ++ [k])
-              else Returned 1 (started ++ [k]) (still_listening c (coordinators c) started started)
+  | k :: r => match start_coord o c k with
+              | StartOk => start_list o c r (started ++ [k])
+              | StartError => Returned 1 (started ++ [k]) (still_listening c (coordinators c) started started)
+              | StartPanic p => Panicked p
+              end
   end.
 
 Definition start_with (h : handler) (o : order) (c : config) (a : app_state) : result :=
@@ -570,6 +607,7 @@ Definition zookeeper_reqs (c : config) : list violation :=
 
 Definition storage_mod_reqs (c : config) (m : storage_mod) : list violation :=
   viol (match st_class m with ClsInmemory => true | _ => false end) StorageClass (st_name m) ++
+  viol (1 <=? st_workers m) StorageWorkers (st_name m) ++
   viol (0 <=? st_queue_depth m) StorageQueueDepth (st_name m) ++
   viol (negb (st_legacy m)) StorageLegacy (st_name m) ++
   viol (pattern_ok c (st_allow m)) StorageAllow (st_name m) ++
@@ -645,7 +683,9 @@ Definition cluster_mod_reqs (c : config) (m : cluster_mod) : list violation :=
   viol (match cl_class m with ClsKafka => true | _ => false end) ClusterClass (cl_name m) ++
   profile_reqs c (cl_name m) (cl_profile m) ++
   viol (nonempty (cl_servers m)) ClusterNoServers (cl_name m) ++
-  viol (servers_ok c (cl_servers m)) ClusterBadServers (cl_name m).
+  viol (servers_ok c (cl_servers m)) ClusterBadServers (cl_name m) ++
+  viol ((1 <=? cl_offset_refresh m) && (1 <=? cl_topic_refresh m)) ClusterRefresh (cl_name m) ++
+  viol (0 <=? cl_reaper_refresh m) ClusterReaperRefresh (cl_name m).
 
 Definition cluster_reqs (c : config) : list violation := flat_map (cluster_mod_reqs c) (cfg_cluster c).
 
